@@ -13,6 +13,8 @@
 //	   existing root), no nil values, all values delimiter-free: different rendered value sets => different keys;
 //	O3 every sampler returns rate >= 1, and over the enumerated values of the random draw exactly one keeps;
 //	O4 cap: O1 still holds for a trace family with 99 distinct values (nothing is demanded at 100 and 101).
+//	O5 re-evaluation: a trace evaluated before its last span arrived and again afterwards gets the key of the same
+//	   trace evaluated once (the key is a function of the trace's current content, not of earlier evaluations).
 //
 //go:debug randseednop=0
 package main
@@ -120,7 +122,14 @@ var mockCfg = &config.MockConfig{}
 
 func (t traceD) build() *types.Trace {
 	tr := &types.Trace{TraceID: "t1"}
-	for i, s := range t.spans {
+	t.addSpans(tr, 0, len(t.spans))
+	return tr
+}
+
+// addSpans appends spans [from, to) of the description to tr.
+func (t traceD) addSpans(tr *types.Trace, from, to int) {
+	for i, s := range t.spans[from:to] {
+		i += from
 		m := map[string]any{"other": "x", "span.no": int64(i)}
 		if s.f.present {
 			m["f"] = s.f.v
@@ -134,7 +143,6 @@ func (t traceD) build() *types.Trace {
 			tr.RootSpan = sp
 		}
 	}
-	return tr
 }
 
 // ---- configurations -----------------------------------------------------------------------------------
@@ -343,6 +351,20 @@ func evalTrace(r *ev.Run, ss *samplerSet, t traceD, order int64) {
 			byDet[ci][typ].add(det, key, order, t)
 			if elig {
 				byKey[ci][typ].add(key, vs, order, t)
+			}
+		}
+		// O5: the key is a function of what the trace holds NOW: a trace that was evaluated before its last span
+		// arrived gets the key of the same trace evaluated once (nothing about the earlier evaluation may stick)
+		if n := len(t.spans); n >= 2 {
+			typ := int(order) % len(typeNames)
+			_, _, _, whole := ss.s[ci][typ].GetSampleRate(tr)
+			inc := &types.Trace{TraceID: "t1"}
+			t.addSpans(inc, 0, n-1)
+			ss.s[ci][typ].GetSampleRate(inc)
+			t.addSpans(inc, n-1, n)
+			if _, _, _, again := ss.s[ci][typ].GetSampleRate(inc); again != whole {
+				report("key-depends-on-an-earlier-evaluation/"+c.name, order, fmt.Sprintf("%s %s: trace %s gets key %q when evaluated once, but %q when it had been evaluated before its last span arrived",
+					typeNames[typ], c.name, t, whole, again), map[string]any{"sampler": typeNames[typ], "config": c.name, "trace": t.String()})
 			}
 		}
 		if elig {
